@@ -3,6 +3,7 @@ Dispatch of line-protocol commands to model functions.
 -/
 import LithiumModel.Proto
 import LithiumModel.Load
+import LithiumModel.World
 
 namespace Dispatch
 open Proto
@@ -39,6 +40,83 @@ def cmdRmslice (p r a b : String) : String :=
     | none => "indexerror"
   | _, _, _, _ => "bad-op"
 
+/-! ### driver world -/
+
+def decOutcome : String → Option World.Outcome
+  | "a" => some .accept
+  | "r" => some .reject
+  | "x" => some .raise
+  | _ => none
+
+def encOutcome : World.Outcome → String
+  | .accept => "a"
+  | .reject => "r"
+  | .raise => "x"
+
+def decEv (s : String) : Option World.Ev :=
+  match s.splitOn "/" with
+  | ["p", o, b, p, r, a] => do
+    let t ← decTestcase b p r a
+    let o ← decOutcome o
+    pure (.propose t o)
+  | ["w", h] => (decBytes h).map .write
+  | ["e"] => some .strategyError
+  | _ => none
+
+def decEvs (s : String) : Option (List World.Ev) :=
+  if s == "." then some [] else (s.splitOn ";").mapM decEv
+
+def encTmpName : World.TmpName → String
+  | .original => "original"
+  | .numbered i true => s!"{i}-interesting"
+  | .numbered i false => s!"{i}-boring"
+
+/-- canonical order of a directory listing: `original` first, then by number (creation order) -/
+def encTmp (l : List (World.TmpName × Bytes)) : String :=
+  let l := l.filter (fun x => x.1 == .original) ++ l.filter (fun x => x.1 != .original)
+  if l.isEmpty then "." else "+".intercalate (l.map (fun x => encTmpName x.1 ++ "=" ++ encBytes x.2))
+
+def encHook : World.Hook → String
+  | .init => "init"
+  | .test i => s!"t{i}"
+  | .cleanup => "cleanup"
+
+def encTests (l : List World.TestRec) : String :=
+  if l.isEmpty then "." else
+  ";".intercalate (l.map (fun t => s!"{t.idx}:{encBytes t.disk}:{encOutcome t.out}:{encTmp t.tmp}"))
+
+def encExit : World.Exit → String
+  | .running => "running"
+  | .returned n => s!"r{n}"
+  | .raised => "x"
+
+def encWorld (w0 w : World.W) : String :=
+  let wrote := if w.diskWrites > w0.diskWrites then "1" else "0"
+  s!"exit={encExit w.exit} disk={encBytes w.disk} wrote={wrote} count={w.testCount} total={w.testTotal} " ++
+  s!"tmp={encTmp w.tmp} tests={encTests w.tests} hooks={",".intercalate (w.trace.map encHook)}"
+
+/-- runs are `kind:first:events` joined by `|`; the state is carried from run to run -/
+def runAll (w : World.W) : List String → Option (List String)
+  | [] => some []
+  | r :: rs =>
+    match r.splitOn ":" with
+    | [kind, first, evs] => do
+      let f ← decOutcome first
+      let es ← decEvs evs
+      let w' ← (if kind == "m" then some (World.runMainW w es f)
+                else if kind == "c" then some (World.runCheckOnlyW w f) else none)
+      let rest ← runAll w' rs
+      pure (encWorld w w' :: rest)
+    | _ => none
+
+def cmdWorld (b p r a disk runs : String) : String :=
+  match decTestcase b p r a, decBytes disk with
+  | some t, some d =>
+    match runAll (World.fresh t d) (runs.splitOn "|") with
+    | some outs => " | ".intercalate outs
+    | none => "bad-op"
+  | _, _ => "bad-op"
+
 def step (line : String) : String :=
   match line.splitOn " " with
   | ["lines", d] =>
@@ -47,6 +125,7 @@ def step (line : String) : String :=
     | none => "bad-op"
   | ["load", kind, d] => cmdLoad kind d
   | ["rmslice", p, r, a, b] => cmdRmslice p r a b
+  | ["world", b, p, r, a, disk, runs] => cmdWorld b p r a disk runs
   | _ => "bad-op"
 
 end Dispatch
